@@ -33,14 +33,20 @@ FailedSol(r, s) == {c \in SolClauses : ~SolClause(c, r, s)}
 ExactStored(r) == {r.sols[i].stored : i \in {j \in 1..Len(r.sols) : Judged(r.sols[j]) /\ ~r.sols[j].approx}}
 BestOf(r) == IF r.sense = 1 THEN CHOOSE m \in ExactStored(r) : \A x \in ExactStored(r) : m <= x
              ELSE CHOOSE m \in ExactStored(r) : \A x \in ExactStored(r) : m >= x
+(* solutions this call added (exact, judged): what the planner has just reported *)
+AddedStored(r) == {r.sols[i].stored : i \in {j \in 1..Len(r.sols) : Judged(r.sols[j]) /\ ~r.sols[j].approx /\ r.sols[j].added}}
 CallClauses == {"noSolutionLost", "bestStoredCostNeverWorse", "nonSolutionAddsNothing", "solutionStatusHasPath",
-                "bestFirst"}
+                "bestFirst", "incumbentNotWorseThanReported"}
 CallClause(c, r) ==
     CASE c = "noSolutionLost" -> Len(r.sols) >= nsol
       [] c = "bestStoredCostNeverWorse" ->
              (hasBest /\ ExactStored(r) # {} => r.sense * (BestOf(r) - best) <= Tol(best))
       [] c = "nonSolutionAddsNothing" -> (r.status \notin SolutionStatuses => Len(r.sols) = nsol)
       [] c = "solutionStatusHasPath" -> (r.status \in SolutionStatuses => Len(r.sols) >= 1)
+      (* "planners keep the incumbent cost and replace it only by a strictly better one": the incumbent the planner   *)
+      (* publishes (progress property 'best cost') is never worse than a solution cost it has just reported          *)
+      [] c = "incumbentNotWorseThanReported" ->
+             (r.hasBestProp => \A x \in AddedStored(r) : r.sense * (r.bestProp - x) <= Tol(x))
       (* the definition hands out the best solution first: exact before approximate; among exact *)
       (* ones sharing the objective an objective-satisfying one first, then the better cost      *)
       [] c = "bestFirst" ->
